@@ -13,20 +13,24 @@ LEVEL = "proof"
 TECHNIQUE = ("Coq proofs about the capacity-instrumented Gallina model of extract_element / extract_header / "
              "MessageBase::decode / decode_group / Message::factory / Message::encode(f8String&) (coq/Codec): every write "
              "into a stack buffer is checked against the buffer's capacity, results are Ok | Exc | OOB site | Diverge | Fuel. "
-             "Safety under a boolean token bound, totality of the fuel, and kernel-checked witnesses of three overruns and "
-             "one non-termination. The model is tied to the real code by differential execution of a malformed stream "
-             "under ASan/UBSan (each risky case in a forked child with CPU/RSS limits); the model must predict the class "
-             "of every case (result dump, exception class, overrun site, hang, UB site).")
-LEVEL_TEXT = ("see coq/Props/Properties_C03.v: c03_decode_safe_partial (no buffer overrun for every wf schema and every "
-              "bounded byte string, residual classes named), c03_decode_safe_strong_partial (Ok or exception under two "
-              "schema conditions), c03_decode_total (fuel never exhausted), c03_encode_safe_partial, and the refutations "
-              "c03_val_overflow_refuted / c03_encode_overflow_refuted / c03_group_hang_refuted (genuine defects F06-F08)")
-LEVEL_NOTE = ("Partial: the property as stated is false of the pinned code. Memory safety of the REAL code is not proved: "
-              "it is observed under ASan/UBSan on the generated stream and tied to the model's capacity checks; reads of "
-              "uninitialised stack bytes (tag buffer after a fixed-width extraction) are not observable with ASan and are "
-              "excluded from the stream. Typed value parsers (fast_atof, date/time) belong to C08/C09 and are fed "
-              "well-formed texts only; fast_atoi<int> UB is modelled exactly.")
-DESIGN_REF = "DESIGN.md section 4, Codec group, C03; findings F06 F07 F08 F09"
+             "Safety of the repaired decoder for ALL byte strings (residual sites named), totality of the fuel, "
+             "kernel-checked witnesses of the remaining overruns and, on the pre-repair definitions, of the repaired ones. "
+             "The model is tied to the real code by differential execution of a malformed stream under ASan/UBSan (risky "
+             "cases in a forked child with a CPU/RSS watchdog); the model must predict the class of every case (result "
+             "dump, exception class, overrun site, UB site).")
+LEVEL_TEXT = ("see coq/Props/Properties_C03.v: c03_decode_safe (every wf schema, every byte string < 2^32: Ok, exception or "
+              "one of the two memory errors of the unrepaired fixed-width extractor; never another overrun, Diverge or Fuel), "
+              "c03_decode_digits_partial, c03_decode_safe_nodata_partial, c03_decode_total, c03_extract_element_safe, "
+              "c03_encode_safe_partial, c03_fast_atoi_safe_partial; refutations c03_fixed_width_refuted, "
+              "c03_encode_overflow_refuted, c03_fast_atoi_ub_refuted, c03_datetime_ub_refuted; on the pre-repair code "
+              "c03_val_overflow_orig_refuted, c03_header_overflow_orig_refuted, c03_group_hang_orig_refuted")
+LEVEL_NOTE = ("Partial: extract_element_fixed_width, output[] of encode(f8String&), fast_atoi's missing range test and the "
+              "date/time parsers still violate the property (known findings). Memory safety of the REAL code is not "
+              "proved: it is observed under ASan/UBSan on the generated stream and tied to the model's capacity checks; "
+              "reads of uninitialised stack bytes (tag buffer after a fixed-width extraction) are not observable with "
+              "ASan and are excluded from the stream. Float parsers belong to C08; date/time texts are canonical or "
+              "predicted UB.")
+DESIGN_REF = "DESIGN.md section 4, Codec group, C03; findings F06 (repaired d48d8ce, residue fixed-width), F07, F08 (repaired a0d41df), F09 (fast_atoi narrowed by a8219b1)"
 PROPS_FILE = "Props/Properties_C03.v"
 COQ_TARGETS = ["Props/Properties_C03.vo", "Extract/Extract_C03.vo"]
 TRUSTED_BASE = ["Coq 8.16.1 kernel (coqc), vm_compute for the witnesses", "Extraction with ExtrOcamlBasic, no Extract Constant; OCaml 4.13.1",
@@ -37,23 +41,25 @@ TRUSTED_BASE = ["Coq 8.16.1 kernel (coqc), vm_compute for the witnesses", "Extra
                 "harness/h_c03.cpp (fork isolation, crash summary from the sanitizer report, CPU/RSS hang detection) + "
                 "harness/h_codec.cpp + meta_dump.hpp; ocaml/prelude.ml + ocaml/c03_driver.ml; vlib/codecgen.py + this suite"]
 ASSUMPTIONS = ["ASan reports the first write past a stack array (redzones >= 32 bytes): an overrun never goes unnoticed",
+               "the model follows /repo a8219b1 (extract_element bounded, decode_group leaves its loop on an empty element, "
+               "fast_atoi with sign and without shifts)",
                "texts of float/date/time typed fields in generated inputs are the unchanged canonical texts of a valid "
                "message (their parsers are C08/C09's subject) or texts for which the model predicts UB in parse_decimal / "
                "time_to_epoch; int texts are arbitrary and fast_atoi<int> UB is predicted",
                "no generated input makes decode read tag[] beyond the bytes written (Length field followed by a longer "
-               "tag): that read of uninitialised stack is unobservable under ASan (model class OOB 4, C06's defect)",
+               "tag of fewer than 2049 digits): that read of uninitialised stack is unobservable under ASan (model class "
+               "OOB 4, C06's defect)",
                "a run that burns > 2 s CPU or grows by > 1 GB is a hang (legitimate 8 KB decodes take milliseconds); every HANG "
                "verdict has to be reproduced in fresh processes (once for inputs of the hang shape, twice otherwise)"]
 RULE = ("valid messages generated from the dumped metadata (wire bytes built independently in Python, and RT through the "
         "real encoder); malformed stream derived from them: truncation at every offset, byte flips (NUL, SOH, '=', digits, "
         ">= 0x80), deleted '=' / SOH, tags of 31/32/33/2047/2048/2049 digits and tags >= 65536, values of "
         "2046..2049/3000/5000 bytes in header, body, group and trailer fields, BeginString/BodyLength/MsgType at their "
-        "capacities, huge / UB group counts, NULs, Length/data pairs with wrong lengths, the group-hang shape in groups "
-        "with and without mandatory members; ENC with a string field of 0..9000 bytes around the output[] boundary; "
+        "capacities, huge / UB group counts, NULs, Length/data pairs with wrong lengths, the former group-hang shape in groups "
+        "with and without mandatory members (now Ok/Exc), a Length field followed by 2049+ digits; ENC with a string field of 0..9000 bytes around the output[] boundary; "
         "the text of Length fields (2^32-k, 2^32+k, 2^31+-k, characters below '0', signs, empty, remaining size) on the "
         "sanitized and on an unsanitized build (DECW: fast_atoi<int> wraps, as the model); "
-        "REENC of long messages; fast_atoi, date/time parser and calc_chksum site probes; of the incidental hang "
-        "shapes (truncation / flip inside an open group without mandatory member) a sample is kept. non-trivial = input of >= 40 bytes whose run "
+        "REENC of long messages; fast_atoi, date/time parser and calc_chksum site probes; non-trivial = input of >= 40 bytes whose run "
         "produced a classified result; distinct = distinct case lines")
 
 SOH = b"\x01"
@@ -89,14 +95,13 @@ ENV = {"ASAN_OPTIONS": "detect_leaks=0:abort_on_error=0:halt_on_error=1:allocato
 def risky(case, rest):
     """Run the case in a forked child?  Exactly those expected to end abnormally (a miss only costs
     a restart of the harness: the culprit is then re-run isolated)."""
-    if case.origin != "gen" or case.cls.startswith(("hang-shape", "ub-int", "ub-date")):
+    if case.origin != "gen" or case.cls.startswith(("ub-int", "ub-date")):
         return True
     w = rest.split(" ")
     try:
         if w[0] in ("DEC", "REENC"):
             data = bytes.fromhex(w[2]) if w[2] != "-" else b""
-            return run_violates(data) or hdr_violates(data) or (w[0] == "REENC" and len(data) > 8000) or \
-                hang_shape(_meta_of(case), data)
+            return fw_violates(_meta_of(case), data) or (w[0] == "REENC" and len(data) > 8000)
         if w[0] == "ENC":
             return len(rest) > 16000
         if w[0] == "ATOI":
@@ -166,10 +171,7 @@ def run_impl(built, cases, tier):
         exp = False
         w = rest.split(" ")
         if w[0] in ("DEC", "DECW", "REENC") and len(w) == 3:
-            try:
-                exp = hang_shape(built["metas"][s], bytes.fromhex(w[2]) if w[2] != "-" else b"")
-            except Exception:
-                exp = False
+            exp = False          # since /repo a0d41df no input is expected to hang
         if w[0] == "DECW":
             by.setdefault(s + "+plain", []).append((k, "DEC " + rest[5:], True, exp))
             continue
@@ -248,7 +250,7 @@ def postprocess(case, r):
             if fn in FRAME_CLASS:
                 return FRAME_CLASS[fn]
             return r + " [" + fn + "]"
-    if r.startswith("CRASH ubsan f8utils.hpp") and ("signed integer overflow" in r or "left shift of" in r):
+    if r.startswith("CRASH ubsan f8utils.hpp") and "signed integer overflow" in r:
         return "UB fast_atoi"
     if r.startswith("CRASH ubsan field.hpp") and ("out of bounds for type 'int [13]'" in r or "left shift of" in r
                                                   or "signed integer overflow" in r):
@@ -308,24 +310,26 @@ def tokens(data):
     return out
 
 
-def py_atoi_ub(txt):
-    """fast_atoi<int> under UBSan (same definition as Bounds.atoi_ub)."""
+def py_atoi(txt):
+    """fast_atoi<int> since /repo a8219b1 under UBSan (same definition as Bounds.atoi_run):
+    (ub, value)."""
+    t = txt.split(b"\0")[0]
+    neg = t[:1] == b"-"
     r = 0
-    for ch in txt.split(b"\0")[0]:
-        if r < 0 or r * 8 >= 2 ** 32:
-            return True
+    for ch in (t[1:] if neg else t):
+        m = r * 10
+        if not -2 ** 31 <= m < 2 ** 31:
+            return True, r
+        d = (ch - 256 if ch >= 128 else ch) - 48
+        r2 = m - d if neg else m + d
+        if not -2 ** 31 <= r2 < 2 ** 31:
+            return True, r
+        r = r2
+    return False, r
 
-        def i32(x):
-            x %= 2 ** 32
-            return x - 2 ** 32 if x >= 2 ** 31 else x
-        c = ch - 256 if ch >= 128 else ch
-        s = i32(r * 8) + i32(r * 2)
-        for add in (0, c, -48):
-            s += add
-            if not -2 ** 31 <= s < 2 ** 31:
-                return True
-        r = s
-    return False
+
+def py_atoi_ub(txt):
+    return py_atoi(txt)[0]
 
 
 DT_TS, DT_TIME, DT_DATES = 22, 23, (21, 24, 25)
@@ -420,7 +424,7 @@ def admissible(meta, data, allowed=None, ub_ok=False, int_ub_ok=False):
         if ft in INT_TYPES:
             if py_atoi_ub(v) and not (ub_ok or int_ub_ok):
                 return False
-            if ft == 2 and f != 9 and i + 1 < len(toks) and len(toks[i + 1][0]) > len(tag):
+            if ft == 2 and f != 9 and i + 1 < len(toks) and len(tag) < len(toks[i + 1][0]) < 2049:
                 return False
         elif ub_ok and py_dt_ub(ft, v) is True:
             continue
@@ -606,7 +610,7 @@ def gen_schema(rng, tier, meta, px, cs):
         add(wire(meta, mt, hdr, body, trl), "group-count")
     # -- fast_atoi<int> UB inside otherwise valid messages: counts whose wrapped value stays positive
     #    (the elements are still decoded), any text in plain int fields
-    for cnt in (b"2147483600", b"99999999999", b"2147483647", b"3000000000000"):
+    for cnt in (b"9999999999", b"99999999999", b"3000000000000"):
         for _ in range(k(2, 5)):
             owner, f, sub = rng.choice(msg_groups)
             mt, hdr, body, trl, w = valid(mtype=owner)
@@ -617,7 +621,8 @@ def gen_schema(rng, tier, meta, px, cs):
         cand = [t for t in meta.traits.get(mt, []) if t.ftype in (1, 3, 4, 6) and not t.group and meta.fields.get(t.fnum, (0,))[0] in (1, 3, 4, 6)]
         if cand:
             plain_int[mt] = cand
-    for txt in (b"2147483647", b"2147483600", b"2147483599", b"-5", b"-", b"1-", b"999999999999", b"\xff\xff", b"12a", b"/1", b"+5", b" 1", b"-1"):
+    for txt in (b"2147483647", b"2147483648", b"-2147483648", b"-2147483649", b"-5", b"-", b"1-", b"999999999999", b"\xff\xff",
+                b"12a", b"/1", b"+5", b" 1", b"-1", b"4294967296", b"-99999999999", b"\x7f\x7f\x7f\x7f\x7f\x7f\x7f\x7f\x7f"):
         if not plain_int:
             break
         mt = rng.choice(sorted(plain_int))
@@ -722,6 +727,19 @@ def gen_schema(rng, tier, meta, px, cs):
                 cs.append(Case("%sDECW %s %s" % (px, mode, data.hex()), "length-text-plain"))
             add(data, "length-text", mode=mode)
 
+    # the fixed-width extractor's unbounded tag write (NOT repaired): a Length field followed by a
+    # run of digits; 2049 and more go past tag[2048]
+    for nd_ in (2049, 2050, 3000):
+        for owner, lf, df in pairs[:k(3, 8)]:
+            mt = owner if owner in meta.msgs else rng.choice(types)
+            mt, hdr, body, trl, w = valid(mtype=mt)
+            tgt = {"header": hdr, "trailer": trl}.get(owner, body)
+            tgt[:] = [x for x in tgt if x.fnum not in (lf, df)]
+            w = wire(meta, mt, hdr, body, trl)
+            digits = bytes(rng.choice(b"0123456789") for _ in range(nd_))
+            tok = b"%d=%d\x01%s=abc\x01" % (lf, rng.choice((0, 1, 3)), digits)
+            i = w.index(SOH, w.index(b"\x0135=") + 1) + 1 if owner == "header" else len(w) - 7
+            add(refix(w[:i] + tok + w[i:]), "fw-digits-%d" % nd_)
     # the fixed-width extractor at its limit: val_sz = 2047 is copied, 2048 is refused
     for ln in (2046, 2047, 2048, 2049):
         for owner, lf, df in pairs[:k(2, 6)]:
@@ -816,6 +834,7 @@ def gen_schema(rng, tier, meta, px, cs):
 
     # -- site probes
     for txt in (b"0", b"7", b"2147483599", b"2147483600", b"2147483647", b"2147483648", b"4294967295", b"99999999999999",
+                b"-2147483648", b"-2147483649", b"-2147483647", b"--1", b"-+1", b"1e3", b"214748364\x7f", b"-214748364\x7f",
                 b"-", b"-5", b"-0", b"+1", b" 1", b"1 ", b"0x10", b"\x80", b"1\x80", b"9" * 9, b"9" * 10, b"/", b"1/", b"", b"12\x0034"):
         cs.append(Case(px + "ATOI " + (txt.hex() or "-"), "atoi"))
     for _ in range(k(12, 60)):
@@ -832,20 +851,7 @@ def gen_cases(rng, tier):
     for schema in schemas(tier):
         meta = built["metas"][schema]
         px = "" if schema == default else "@%s " % schema
-        mine = []
-        gen_schema(rng, tier, meta, px, mine)
-        # truncation and flips inside an open group without mandatory member are hangs (F08), each
-        # costing seconds of CPU: keep a sample of them
-        budget = 60 if tier == "thorough" else 10
-        for c in mine:
-            w = c.line.split(" ")
-            if not c.cls.startswith("hang-shape") and "DEC" in w[:2]:
-                hx = w[-1]
-                if hang_shape(meta, bytes.fromhex(hx) if hx != "-" else b""):
-                    if budget <= 0:
-                        continue
-                    budget -= 1
-            cs.append(c)
+        gen_schema(rng, tier, meta, px, cs)
     return cs
 
 
@@ -870,6 +876,18 @@ def nontrivial(case, r):
     if data is not None:
         return len(data) >= 40 and r.split(" ")[0] in ("OK", "EXC", "OOB", "HANG", "UB")
     return r.split(" ")[0] in ("OK", "EXC", "OOB", "UB")
+
+
+def fw_violates(meta, data):
+    """a Length-typed token (other than BodyLength) directly followed by a run of >= 2049 digits:
+    extract_element_fixed_width writes the 2049th digit past tag[2048]"""
+    toks = tokens(data)
+    for i, (tag, val) in enumerate(toks[:-1]):
+        if tag and len(tag) < 12 and i >= 3:
+            f = int(tag) % 65536
+            if meta.fields.get(f, (None,))[0] == 2 and f != 9 and len(toks[i + 1][0]) >= 2049:
+                return True
+    return False
 
 
 def run_violates(data, tcap=2048, vcap=2048):
@@ -996,6 +1014,11 @@ def c_datetime_ub(case, r, m):
     return False
 
 
+def c_fw_tag(case, r, m):
+    meta, data = _dec_bytes(case)
+    return data is not None and r == "OOB decode" and fw_violates(meta, data)
+
+
 def c_chksum_align(case, r, m):
     meta, w = _parts(case)
     return r == "UB calc_chksum" and w[0] == "CHKSUM" and int(w[1]) % 4 != 0 and len(w[2]) // 2 >= 8
@@ -1003,7 +1026,7 @@ def c_chksum_align(case, r, m):
 
 CLASSIFIERS = {"value-ge-capacity": c_value_overflow, "header-token-ge-capacity": c_header_overflow,
                "encoded-size-gt-output": c_encode_overflow, "group-hang-shape": c_group_hang,
-               "fast-atoi-ub": c_atoi_ub, "datetime-parse-ub": c_datetime_ub, "chksum-misaligned": c_chksum_align}
+               "fixed-width-tag-ge-2049": c_fw_tag, "fast-atoi-ub": c_atoi_ub, "datetime-parse-ub": c_datetime_ub, "chksum-misaligned": c_chksum_align}
 
 
 def extra_search(rng, seeds, tier):
